@@ -136,6 +136,13 @@ pub fn replay(cases: &str, verdicts: &str, depth: usize) {
         drop(others);
         let okr = s1 == s2 && s1 == s3;
         w.v.check(okr, kind, "stream reproducible", &json!({"kind": kind, "p": p}), json!({"same_seed_twice": s1 == s2, "with_other_objects": s1 == s3}));
+        // large requests: the same seed gives the same 40 000 draws, and their beginning is the stream of a small request
+        if w.v.cases % 5 == 1 {
+            let big = |n: usize| { alea::set_seed(seed); guard(|| obj.sample_n(n).iter().map(|x| x.to_bits()).collect::<Vec<u64>>()) };
+            let (b1, b2, small) = (big(40000), big(40000), big(24));
+            let okb = match (&b1, &b2, &small) { (Some(a), Some(b), Some(c)) => a.len() == 40000 && a == b && a[..24] == c[..], _ => false };
+            w.v.check(okb, kind, "large request reproducible", &json!({"kind": kind, "p": p, "n": 40000}), json!({"twice_equal": b1 == b2, "prefix_of_small": b1.as_ref().map(|a| Some(&a[..24.min(a.len())]) == small.as_ref().map(|c| &c[..]))}));
+        }
         let mut path = vec![json!({"op": "new", "kind": kind, "ps": p})];
         w.walk(&obj, kind, p, 0, &mut path);
     }
@@ -196,6 +203,7 @@ pub fn replay_extreme(cases: &str, verdicts: &str) {
         let kind = c["kind"].as_str().unwrap();
         let i = c["i"].as_u64().unwrap() as usize - 1;
         let (s, e) = (c["s"].as_i64().unwrap() as f64, c["e"].as_i64().unwrap() as i32);
+        if c["special"].is_string() { special_case(&mut v, &c); return; }
         let val = s * if e < -1022 { 2f64.powi(-1022) * 2f64.powi(e + 1022) } else { 2f64.powi(e) };
         let valid = c["valid"].as_bool().unwrap();
         let base = params_of(kind, &ints(&c["base"]));
@@ -220,4 +228,25 @@ pub fn replay_extreme(cases: &str, verdicts: &str) {
         }
     });
     v.finish();
+}
+
+/// NaN and the infinities: the specification fixes the verdict where the constraint decides it (+-inf against a
+/// one-sided bound) and otherwise demands only that constructor, setter and bulk update decide ALIKE
+fn special_case(v: &mut Verdicts, c: &Value) {
+    let kind = c["kind"].as_str().unwrap();
+    let i = c["i"].as_u64().unwrap() as usize - 1;
+    let sp = c["special"].as_str().unwrap();
+    let val = match sp { "nan" => f64::NAN, "pinf" => f64::INFINITY, _ => f64::NEG_INFINITY };
+    let base = params_of(kind, &ints(&c["base"]));
+    let mut p = base.clone();
+    p[i] = val;
+    let id = json!({"kind": kind, "field": i + 1, "value": sp, "base": fjs(&base), "expect": c["valid"]});
+    let ctor = D::new(kind, &p).is_some();
+    let set = D::new(kind, &base).map(|mut o| o.set(i, val));
+    let upd = D::new(kind, &base).map(|mut o| o.update(&p));
+    let alike = set == Some(ctor) && upd == Some(ctor);
+    v.check(alike, kind, &format!("entry points alike {}", sp), &id, json!({"new": ctor, "set": set, "update": upd}));
+    if let Some(exp) = c["valid"].as_bool() {
+        v.check(ctor == exp, kind, &format!("new {} {}", sp, if exp { "valid" } else { "invalid" }), &id, json!(ctor));
+    }
 }
